@@ -536,7 +536,7 @@ PROPS = {
 TYPE_RULES_TEXT = (" Type-limit rules (verdict for the files in the directories of the anchor files): UNSIGNEDNEG: no `x < 0` / `x >= 0` test on an operand of unsigned type "
                    "(a refusal that can never be taken). BYTESIGN: no (in)equality between an `unsigned char` and a plain `char` operand (bytes from 0x80 up never compare equal). "
                    "FLAGWIDTH: every constant mask lies inside the declared type of the value it tests. SIZEOFPTR: no length argument is the sizeof of a pointer variable unless the "
-                   "memory holds pointers. CONSTSTATE (reference table, see the reference-table rules): every constant a function of the unchanged tree stores into a member of an object it reaches "
+                   "memory holds pointers. DEADSHADOW: no assignment to a local that hides another local of the same name is dead while the hidden one is live (read afterwards without being assigned). CONSTSTATE (reference table, see the reference-table rules): every constant a function of the unchanged tree stores into a member of an object it reaches "
                    "through a pointer (resets and state marks) is still stored by it, by a function it calls, or covered by a whole-object store. LOCALNARROW (anchor files of the properties it is armed for): a one- or two-byte local that implicitly receives a wider value receives one inside its range (interval analysis).")
 # LOCALNARROW is armed only where the interval engine bounds every narrowing store of the unchanged tree in the property's directories
 LOCALNARROW_PROPS = ("C04", "C05", "C06", "C08", "C09", "C10", "C11", "C12", "C13", "C14", "C15", "C16", "C19")
@@ -546,6 +546,7 @@ for _pid, _spec in PROPS.items():
         {"run": rules_types.run_bytesign, "floor": 25, "scope": "anchor-dirs"},
         {"run": rules_types.run_flagwidth, "floor": 400, "scope": "anchor-dirs"},
         {"run": rules_types.run_sizeofptr, "floor": 200, "scope": "anchor-dirs"},
+        {"run": rules_types.run_deadshadow, "floor": 25, "scope": "anchor-dirs"},
     ]
     _spec["rules"].append({"run": rules_effect.run_conststate, "floor": 300, "scope": "anchor-dirs"})
     if _pid in LOCALNARROW_PROPS:
